@@ -82,7 +82,7 @@ def eval_exprs(cases, workdir, name="exprs.c"):
         lines.append(f"cbi_m_e{i};")
         lines.append("#endif")
         for k in (macros or {}):
-            lines.append(f"#undef {k}")
+            lines.append("#undef " + k.split("(")[0])       # keys may be function-like: NAME(params)
         for ln in range(start, len(lines) + 1):
             owner[ln] = i
     path = os.path.join(workdir, name)
